@@ -18,11 +18,15 @@ let iz x = string_of_int (int_of_z x)
 let const_of s =
   if s = "t" then CBool true else if s = "f" then CBool false else if s = "v" then CVoid
   else if s.[0] = 'i' then CInt (z_of_hex (String.sub s 1 (String.length s - 1)))
+  else if s.[0] = 'r' then
+    (match String.split_on_char '/' (String.sub s 1 (String.length s - 1)) with
+     | [n; d] -> (match z_of_hex d with Zpos p -> CRat (z_of_hex n, p) | _ -> failwith ("bad ratio " ^ s))
+     | _ -> failwith ("bad ratio " ^ s))
   else if s.[0] = 'o' then COther (zi (String.sub s 1 (String.length s - 1)))
   else failwith ("bad constant " ^ s)
 
 let string_of_const = function
-  | CInt z -> "i" ^ hex_of_z z | CBool true -> "t" | CBool false -> "f" | CVoid -> "v" | COther t -> "o" ^ iz t
+  | CInt z -> "i" ^ hex_of_z z | CRat (n, d) -> "r" ^ hex_of_z n ^ "/" ^ hex_of_pos d | CBool true -> "t" | CBool false -> "f" | CVoid -> "v" | COther t -> "o" ^ iz t
 
 let rec take n f toks = if n = 0 then ([], toks) else let (x, r) = f toks in let (xs, r') = take (n - 1) f r in (x :: xs, r')
 let name = function t :: r -> (zi t, r) | [] -> failwith "eof"
